@@ -159,6 +159,7 @@ def check(prog: Program, tier: str) -> Result:
     stats = site_obligations(prog, res, "R8.2", need_bare=True)
     _producer(prog, res)
     _producer_star_imports(prog, res)
+    _producer_other_spellings(prog, res)
     _magic_methods(prog, res)
     _magic_functions_outside_classes(prog, res)
     # R8.5: the names used by the preserved files are READ FROM DISK for every run: no memo between the files and `preserve`
@@ -204,7 +205,7 @@ def check(prog: Program, tier: str) -> Result:
     res.ok("R8.5", "pyrefact/main.py", "main", f"memoised functions between the preserved files and `preserve` # {len(anchors)} producer function(s) followed",
            f"{n_memo} memoised function(s) reachable, each judged above", trivial=bool(n_memo))
     _r8_6(prog, res)
-    res.floors.update({"R8.1": 10, "R8.2": 8, "R8.3": 3, "R8.4": 1, "R8.6": 1})
+    res.floors.update({"R8.1": 10, "R8.2": 8, "R8.3": 3, "R8.4": 1, "R8.6": 1, "R8.7": 3})
     res.analysed.update(stats)
     return res
 
@@ -361,6 +362,36 @@ def _magic_functions_outside_classes(prog: Program, res: Result) -> None:
         res.undecided("R8.4", fn.loc(), fn.fq, "deletion of a function without uses", "deletion site not found")
 
 
+def _producer_other_spellings(prog: Program, res: Result) -> None:
+    """R8.7: other ways a preserved file SPELLS a name of the library, none of them a Name or Attribute node: the keyword of a
+    call (`Point(xCoord=1)` names a parameter / dataclass field), the keyword of a class pattern (`case Point(xCoord=1)`),
+    and the mangled form of a private member (`obj._Engine__step` is `__step` inside class Engine).  The producer of the
+    preserve set records each of them (recording = the value reaches an append / extend / add of the collection that is
+    returned)."""
+    fn = prog.func("main", "_used_names_in_file")
+    recorded = []
+    for c in prog.calls_in(fn):
+        if isinstance(c.func, ast.Attribute) and c.func.attr in ("append", "extend", "add", "update") and c.args:
+            recorded.append(c.args[0])
+    def some(pred) -> Optional[ast.AST]:
+        for r in recorded:
+            if pred(r):
+                return r
+        return None
+    kw = some(lambda r: any(isinstance(x, ast.Attribute) and x.attr == "arg" for x in ast.walk(r)) and "ast.keyword" in norm(r))
+    mc = some(lambda r: any(isinstance(x, ast.Attribute) and x.attr == "kwd_attrs" for x in ast.walk(r)))
+    mg = some(lambda r: any(isinstance(x, ast.Attribute) and x.attr == "attr" for x in ast.walk(r)) and "__" in norm(r)
+              and any(isinstance(x, (ast.Subscript, ast.Call)) for x in ast.walk(r)) and not isinstance(r, ast.Attribute))
+    for what, hit, why in (
+            ("keyword names of calls", kw, "`Point(xCoord=1)` in a preserved file: the library's field xCoord is renamed to x_coord, the client gets `unexpected keyword argument`"),
+            ("keyword names of class patterns", mc, "`case Point(xCoord=1)` in a preserved file: the attribute the pattern reads is renamed in the library"),
+            ("un-mangled private member names", mg, "`obj._Engine__step()` in a preserved file: the rules compare the definition's own name `__step` with the preserve set, find nothing, "
+                                                    "and rename or delete the method")):
+        res.decide(hit is not None, "R8.7", fn.loc(hit) if hit is not None else fn.loc(), fn.fq, f"{what} # recorded by the producer of the preserve set",
+                   f"recorded: {short(hit, 60)}" if hit is not None else why)
+
+
+
 def _producer_star_imports(prog: Program, res: Result) -> None:
     """R8.3 (star imports): after `from lib import *` every bare name of the preserved file that it does not define itself may
     come from lib.  The producer only records bare names that are IMPORTED names - for a star import that set holds just '*'.
@@ -457,6 +488,9 @@ def _producer(prog: Program, res: Result) -> None:
 from ..selftest import Variant  # noqa: E402
 
 VARIANTS = [
+    Variant("keyword-names-not-recorded", "FIRE", "main", "    names.extend(node.arg for node in core.walk(ast_root, ast.keyword) if node.arg)\n", "", "R8.7"),
+    Variant("class-pattern-keywords-not-recorded", "FIRE", "main", "            names.extend(node.kwd_attrs)\n", "            pass\n", "R8.7"),
+    Variant("mangled-names-not-unmangled", "FIRE", "main", "            names.extend(\n                node.attr[match.start() :]\n                for match in re.finditer(r\"(?<=[^_])__(?=[^_])\", node.attr)\n                if node.attr.startswith(\"_\") and not node.attr.endswith(\"__\")\n            )\n", "", "R8.7"),
     Variant("star-import-of-the-client-ignored", "FIRE", "main",
             "        if any(alias.name == \"*\" for alias in node.names):\n            # Whatever is not defined here may come from the star import\n            names.extend(name.id for name in core.walk(ast_root, ast.Name))\n", "", "R8.3"),
     Variant("module-level-dunder-counts-as-unused", "FIRE", "fixes", "        elif parsing.is_magic_method(def_node):\n            continue  # A module level __getattr__ or __dir__ is called by the import system\n", "", "R8.4"),
